@@ -97,7 +97,7 @@ func checkC01(p *Prog, r *Report) {
 					for _, c := range o.calls {
 						if strings.HasPrefix(c, "encoding/json.Unmarshal(data, &") {
 							v := strings.TrimSuffix(strings.TrimPrefix(c, "encoding/json.Unmarshal(data, &"), ")")
-							if strings.Contains(o.term, "&"+v) || strings.Contains(o.val.String(), "&"+v) {
+							if isVarTerm(o.term, v) || isVarTerm(o.val.String(), v) {
 								good = true
 							}
 						}
@@ -113,6 +113,8 @@ func checkC01(p *Prog, r *Report) {
 	checkMarshalPlumbing(p, r, "C01")
 	checkUnmarshalPlumbing(p, r, "C01")
 	checkResourceTags(p, r)
+	r.rule("C01.read-nilness: no function on the Get/Set paths of Wrapper and SoftResource rebuilds a byte string by appending to a nil slice without a length guard (empty would become nil, i.e. null)")
+	checkReadNilness(p, r)
 }
 
 func checkRejectionProvenance(p *Prog, r *Report, kt *kindTable) {
@@ -490,4 +492,57 @@ func checkResourceTags(p *Prog, r *Report) {
 		}
 	}
 	r.floor("R5 resource members", n, 7)
+}
+
+// checkReadNilness: on the read and write paths of the two resource
+// implementations no byte string is rebuilt by appending to a nil slice: that
+// idiom turns an empty, non-nil byte string into nil, which encoding/json
+// writes as null.
+func checkReadNilness(p *Prog, r *Report) {
+	var roots []*ssa.Function
+	for _, n := range []string{"(*Wrapper).Get", "(*Wrapper).Set", "(*SoftResource).Get", "(*SoftResource).Set"} {
+		if f := p.Fn(n); f != nil {
+			roots = append(roots, f)
+		}
+	}
+	nf := 0
+	for _, f := range p.cg.Reachable(roots...) {
+		if f.Pkg == nil || f.Pkg != roots[0].Pkg {
+			continue
+		}
+		nf++
+		eachInstr(f, func(ins ssa.Instruction) {
+			c, ok := ins.(*ssa.Call)
+			if !ok || builtinName(c.Common()) != "append" || len(c.Common().Args) != 2 {
+				return
+			}
+			st, ok := c.Type().Underlying().(*types.Slice)
+			if !ok {
+				return
+			}
+			if b, ok := st.Elem().Underlying().(*types.Basic); !ok || b.Kind() != types.Uint8 {
+				return
+			}
+			base := c.Common().Args[0]
+			if !isNilConst(stripValue(base)) && !isNilConst(base) {
+				return
+			}
+			if _, isConst := c.Common().Args[1].(*ssa.Const); isConst || len(referrers(c)) == 0 {
+				return
+			}
+			guarded := false
+			for _, ef := range expandFacts(factsAt(c.Block())) {
+				if bo, ok := ef.Cond.(*ssa.BinOp); ok {
+					for _, o := range []ssa.Value{bo.X, bo.Y} {
+						if lc, ok := o.(*ssa.Call); ok && builtinName(lc.Common()) == "len" {
+							guarded = true
+						}
+					}
+				}
+			}
+			r.decide(guarded, "C01.read-nilness", funcName(f)+":"+p.describe(c), p.pos(c.Pos()), "the nil-based append is made for a non-empty source only",
+				"a byte string read from or stored into a resource is rebuilt with append on a nil slice: an empty, non-nil byte string becomes nil, is marshaled as null and does not come back (null-ness not preserved)")
+		})
+	}
+	r.decide(nf >= 4, "C01.read-nilness", "scope", p.pos(roots[0].Pos()), fmt.Sprintf("%d functions on the Get/Set paths examined", nf), "the Get/Set paths of the resource implementations were not found")
 }
